@@ -30,10 +30,12 @@
 (* Modes (IOEnv.C06_MODE):                                                 *)
 (*  "enum" exhaustive: every composition of the delivered prefix into      *)
 (*         chunks, 0..MaxRun Pending answers before each chunk / the Eof   *)
-(*         (at most subject.maxpend per schedule), Eof at every prefix.    *)
+(*         (at most subject.maxpend per schedule), Eof at every prefix     *)
+(*         (the transport may close whenever it is polled).                *)
 (*  "sim"  for -simulate: one walk visits every subject once (NextSubject) *)
-(*         with a random schedule; chunk sizes from a ladder, a coin makes *)
-(*         half of the schedules end in Eof at a uniformly chosen prefix.  *)
+(*         with a random schedule; chunk sizes from a ladder; the closing  *)
+(*         prefix is planned when the subject starts (`plan`) so that half *)
+(*         of the schedules end in Eof, at a uniformly chosen prefix.      *)
 (*  "live" no history, unbounded Pending answers: termination under weak   *)
 (*         fairness of the transport making progress and of the reader.    *)
 (***************************************************************************)
@@ -53,20 +55,22 @@ VARIABLES sid,        \* index of the subject in Subjects
           consumed,   \* bytes returned to the decoder by completed requests
           pc,         \* position in the read script
           pollState,  \* answer to the last poll / outcome: start ready pending done failed
-          eofAt,      \* prefix at which the transport closes, -1 = it delivers everything
+          eofAt,      \* prefix at which the transport closed, -1 = it has not closed
           buf,        \* available bytes not yet taken by the reader (byte numbers, FIFO)
           fill,       \* bytes gathered so far for the current request
           got,        \* bytes returned to the decoder, in the order returned
           run, npend, \* Pending answers in a row / in this schedule
           sched,      \* history: the schedule so far (k > 0: chunk of k bytes, 0: Pending)
-          coin        \* sim only: weight variable (see NextSubject)
+          plan        \* sim only: p >= 0 = the transport will close at prefix p, p < 0 = it will not
 
-vars == <<sid, delivered, consumed, pc, pollState, eofAt, buf, fill, got, run, npend, sched, coin>>
+vars == <<sid, delivered, consumed, pc, pollState, eofAt, buf, fill, got, run, npend, sched, plan>>
 
 S      == Subjects[sid]
 L      == S.L
 Script == S.script
-Limit  == IF eofAt = -1 THEN L ELSE eofAt
+(* how far the transport can still deliver, and whether it may close now *)
+Cap      == IF Mode = "sim" /\ plan >= 0 THEN plan ELSE L
+MayClose == IF Mode = "sim" THEN delivered = plan ELSE delivered < L
 
 RECURSIVE SumTo(_, _)
 SumTo(s, i) == IF i = 0 THEN 0 ELSE SumTo(s, i - 1) + s[i]
@@ -93,28 +97,28 @@ Ladder == {1, 2, 3, 4, 6, 8, 12, 16, 24, 32, 64, 128}
 ChunkChoices(rem) == IF Mode = "sim" THEN {k \in Ladder \cup {rem} : 1 <= k /\ k <= rem} ELSE 1..rem
 
 ---------------------------------------------------------------------------
-Fresh(s, e, c) ==
-    /\ sid = s /\ eofAt = e /\ coin = c
+Fresh(s, p) ==
+    /\ sid = s /\ eofAt = -1 /\ plan = p
     /\ delivered = 0 /\ consumed = 0 /\ pc = 1 /\ pollState = "start"
     /\ buf = <<>> /\ fill = <<>> /\ got = <<>> /\ run = 0 /\ npend = 0 /\ sched = <<>>
 
-(* sim: L states without Eof (coin 1..L) against L states with Eof at prefix 0..L-1 *)
-SimStarts(s) == {<<-1, c>> : c \in 1..Subjects[s].L} \cup {<<e, 0>> : e \in 0..(Subjects[s].L - 1)}
+(* sim: L plans without Eof (-L..-1) against L plans with Eof at prefix 0..L-1 *)
+SimPlans(s) == (-Subjects[s].L)..(Subjects[s].L - 1)
 
 Init ==
     IF Mode = "sim"
-    THEN \E ec \in SimStarts(1) : Fresh(1, ec[1], ec[2])
-    ELSE \E s \in 1..NSubj : \E e \in -1..(Subjects[s].L - 1) : Fresh(s, e, 0)
+    THEN \E p \in SimPlans(1) : Fresh(1, p)
+    ELSE \E s \in 1..NSubj : Fresh(s, -1)
 
 Deliver(k) ==
     /\ Blocked
-    /\ k >= 1 /\ delivered + k <= Limit
+    /\ k >= 1 /\ delivered + k <= Cap
     /\ buf' = Range(delivered, k)
     /\ delivered' = delivered + k
     /\ pollState' = "ready"
     /\ run' = 0
     /\ sched' = IF Mode = "live" THEN sched ELSE Append(sched, k)
-    /\ UNCHANGED <<sid, consumed, pc, eofAt, fill, got, npend, coin>>
+    /\ UNCHANGED <<sid, consumed, pc, eofAt, fill, got, npend, plan>>
 
 ReturnPending ==
     /\ Blocked
@@ -124,14 +128,15 @@ ReturnPending ==
     /\ npend' = IF Mode = "live" THEN npend ELSE npend + 1
     /\ sched' = IF Mode = "live" THEN sched ELSE Append(sched, 0)
     /\ fill' = IF Mutant = "forget" THEN <<>> ELSE fill
-    /\ UNCHANGED <<sid, delivered, consumed, pc, eofAt, buf, got, coin>>
+    /\ UNCHANGED <<sid, delivered, consumed, pc, eofAt, buf, got, plan>>
 
 (* the transport closes: the pending request can never be filled, the read fails *)
 Eof ==
     /\ Blocked
-    /\ eofAt # -1 /\ delivered = eofAt
+    /\ MayClose
+    /\ eofAt' = delivered
     /\ pollState' = "failed"
-    /\ UNCHANGED <<sid, delivered, consumed, pc, eofAt, buf, fill, got, run, npend, sched, coin>>
+    /\ UNCHANGED <<sid, delivered, consumed, pc, buf, fill, got, run, npend, sched, plan>>
 
 Take ==
     /\ Reading /\ buf # <<>> /\ Len(fill) < Need
@@ -139,7 +144,7 @@ Take ==
          /\ fill' = fill \o SubSeq(buf, 1, n)
          /\ buf' = IF Mutant = "drop" /\ n < Len(buf) THEN SubSeq(buf, n + 2, Len(buf))
                    ELSE SubSeq(buf, n + 1, Len(buf))
-    /\ UNCHANGED <<sid, delivered, consumed, pc, pollState, eofAt, got, run, npend, sched, coin>>
+    /\ UNCHANGED <<sid, delivered, consumed, pc, pollState, eofAt, got, run, npend, sched, plan>>
 
 CompleteRead ==
     /\ Reading /\ Len(fill) = Need
@@ -148,17 +153,17 @@ CompleteRead ==
     /\ fill' = <<>>
     /\ pc' = pc + 1
     /\ pollState' = IF pc = Len(Script) THEN "done" ELSE pollState
-    /\ UNCHANGED <<sid, delivered, eofAt, buf, run, npend, sched, coin>>
+    /\ UNCHANGED <<sid, delivered, eofAt, buf, run, npend, sched, plan>>
 
 (* sim only: the walk goes on with the next subject *)
 NextSubject ==
     /\ Mode = "sim" /\ Terminal /\ sid < NSubj
-    /\ \E ec \in SimStarts(sid + 1) :
-         /\ sid' = sid + 1 /\ eofAt' = ec[1] /\ coin' = ec[2]
+    /\ sid' = sid + 1 /\ eofAt' = -1
+    /\ plan' \in SimPlans(sid + 1)
     /\ delivered' = 0 /\ consumed' = 0 /\ pc' = 1 /\ pollState' = "start"
     /\ buf' = <<>> /\ fill' = <<>> /\ got' = <<>> /\ run' = 0 /\ npend' = 0 /\ sched' = <<>>
 
-DeliverAny == \E k \in ChunkChoices(Limit - delivered) : Deliver(k)
+DeliverAny == \E k \in ChunkChoices(Cap - delivered) : Deliver(k)
 Transport == DeliverAny \/ Eof
 Reader    == Take \/ CompleteRead
 Next      == Transport \/ ReturnPending \/ Reader \/ NextSubject
@@ -173,7 +178,7 @@ TypeOK ==
     /\ sid \in 1..NSubj
     /\ delivered \in 0..L /\ consumed \in 0..L /\ pc \in 1..(Len(Script) + 1)
     /\ pollState \in {"start", "ready", "pending", "done", "failed"}
-    /\ eofAt \in -1..(L - 1)
+    /\ eofAt \in -1..(L - 1) /\ plan \in (-L)..(L - 1)
     /\ run \in 0..MaxRun /\ npend >= 0
 
 (* every byte made available is in exactly one place, and the places line up in byte order: *)
@@ -181,7 +186,7 @@ TypeOK ==
 NoLoss ==
     /\ got \o fill \o buf = Range(0, delivered)
     /\ consumed = Len(got)
-    /\ delivered <= Limit
+    /\ delivered <= Cap
     /\ Reading => Len(fill) <= Need
 
 (* the guard of the design: a request completes only on bytes that were delivered, and the *)
@@ -200,12 +205,13 @@ Outcome == [st |-> pollState, consumed |-> consumed, pc |-> pc]
 
 ScheduleIndependent ==
     Terminal => /\ Outcome = Blocking(delivered)
-                /\ delivered = Limit
+                /\ pollState = "failed" <=> eofAt = delivered
+                /\ pollState = "done" <=> (eofAt = -1 /\ delivered = L)
                 /\ got = Range(0, consumed)
 
 RECURSIVE SumSeq(_)
 SumSeq(s) == IF s = <<>> THEN 0 ELSE Head(s) + SumSeq(Tail(s))
-SchedShape == (Terminal /\ Mode # "live") => SumSeq(sched) = Limit
+SchedShape == (Terminal /\ Mode # "live") => SumSeq(sched) = delivered
 
 InOrder == [][sid' = sid => (delivered' >= delivered /\ consumed' >= consumed /\ pc' >= pc)]_vars
 
